@@ -78,6 +78,11 @@ TAml ==
                      LET n == IF E.tree.t = "BufferFill" THEN E.tree.n ELSE Len(E.tree.d)
                          d == PkgDec(b, 1) sz == IntDec(b, 1 + d.k) IN
                      d.ok /\ sz.ok /\ sz.v = IntOfNat(n) /\ Slice(b, 1 + d.k, sz.n - 1 - d.k) = IntEnc(IntOfNat(n)), AInfo("buffer_size_operand"))
+          \* ... and the BufferSize of a resource template is the integer constant of its payload (descriptors + end tag)
+          /\ Judge("C08", E.tree.t = "ResourceTemplate" =>
+                     LET n == Len(EncList(E.tree.ch)) + 2
+                         d == PkgDec(b, 1) sz == IntDec(b, 1 + d.k) IN
+                     d.ok /\ sz.ok /\ sz.v = IntOfNat(n) /\ Slice(b, 1 + d.k, sz.n - 1 - d.k) = IntEnc(IntOfNat(n)), AInfo("buffer_size_operand"))
           /\ Judge("C09", "path" \in DOMAIN E.tree /\ E.tree.t # "ScopeRaw" /\ E.tree.t \in {"Name", "Device", "Scope", "Method", "Mutex", "OpRegion", "Field", "PowerResource", "MethodCall", "Acquire", "Release"} =>
                      LET pre == CASE E.tree.t \in {"Device", "Field", "PowerResource"} -> 2 + PkgDec(b, 2).k
                                   [] E.tree.t \in {"Scope", "Method"} -> 1 + PkgDec(b, 1).k
